@@ -162,8 +162,9 @@ package jsonpatch
 //@ func (*lazyNode).tryAry
 //@   requires node: nodeOK(n)
 //@   requires unparsed: n.which != eAry
-//@   ensures[C06] result: result <==> (n.raw != nil && kind(val(*n.raw)) == KArr)
-//@   ensures[C06] parsed: result ==> n.which == eAry && n.ary != nil
+//@   requires null-only-detached: n.raw != nil && kind(val(*n.raw)) == KNull ==> detached(n)
+//@   ensures[C06] result: result <==> (n.raw != nil && (kind(val(*n.raw)) == KArr || kind(val(*n.raw)) == KNull))
+//@   ensures[C06] parsed: result ==> n.which == eAry && ((n.ary != nil) <==> kind(val(*n.raw)) == KArr)
 //@   ensures[C06] unchanged: !result ==> n.which == old(n.which)
 //@   ensures[C01,C06] raw-kept: n.raw == old(n.raw)
 
@@ -189,7 +190,7 @@ package jsonpatch
 //@   requires node: nodeOK(n)
 //@   ensures[C01] parsed-iff: (err == nil) <==> (n.which == eDoc)
 //@   ensures[C01] already: old(n.which) == eDoc ==> err == nil && result.0 == old(n.doc)
-//@   ensures[C01] result: err == nil ==> result.0 == n.doc && result.0 != nil && allocated(result.0)
+//@   ensures[C01] result: err == nil ==> result.0 == n.doc && result.0 != nil && allocated(result.0) && docParsed(result.0)
 //@   ensures[C01,C02] nil-on-error: err != nil ==> result.0 == nil && n.which == old(n.which)
 //@   ensures[C01] object-iff: old(n.which) != eDoc && n.raw != nil ==> ((err == nil) <==> kind(val(*n.raw)) == KObj)
 //@   ensures[C15] opts: err == nil && old(n.which) != eDoc ==> n.doc.opts == options
@@ -198,9 +199,11 @@ package jsonpatch
 
 //@ func (*lazyNode).intoAry
 //@   requires node: nodeOK(n)
+//@   requires non-null: n.which != eAry && n.raw != nil ==> kind(val(*n.raw)) != KNull
+//@   requires parsed-ary: n.which == eAry ==> n.ary != nil
 //@   ensures[C01] parsed-iff: (err == nil) <==> (n.which == eAry)
 //@   ensures[C01] already: old(n.which) == eAry ==> err == nil && result.0 == old(n.ary)
-//@   ensures[C01] result: err == nil ==> result.0 == n.ary && result.0 != nil && allocated(result.0)
+//@   ensures[C01] result: err == nil ==> result.0 == n.ary && result.0 != nil && allocated(result.0) && aryParsed(result.0)
 //@   ensures[C01,C02] nil-on-error: err != nil ==> result.0 == nil && n.which == old(n.which)
 //@   ensures[C01] array-iff: old(n.which) != eAry && n.raw != nil ==> ((err == nil) <==> kind(val(*n.raw)) == KArr)
 //@   ensures[C01,C05] raw-kept: n.raw == old(n.raw)
@@ -273,7 +276,7 @@ package jsonpatch
 // ---- codec callbacks (called by the trusted encoder/decoder only) ----
 
 //@ func (*lazyNode).RedirectMarshalJSON
-//@   requires recv: n != nil
+//@   requires recv: n != nil && (n.which == eAry ==> n.ary != nil)
 //@   modifies nothing
 //@   ensures[C15] never-unknown: err == nil
 
